@@ -169,7 +169,8 @@ CHECKS["C16"] = {
     "design_ref": "DESIGN.md §2 C16",
     "jobs": [{"bin": "e3_hist", "args": ["--mode", "dfs"], "deadline": {"quick": 300, "thorough": 900}},
              {"bin": "e3_hist", "args": ["--mode", "lockstep"], "deadline": {"quick": 300, "thorough": 900}},
-             {"bin": "e3_hist", "args": ["--mode", "linear"], "deadline": {"quick": 200, "thorough": 900}}],
+             {"bin": "e3_hist", "args": ["--mode", "linear"], "deadline": {"quick": 200, "thorough": 900}},
+             {"bin": "e3_hist", "args": ["--mode", "copyforms"], "deadline": {"quick": 400, "thorough": 1500}}],
     "rule": ("the C03 history space; every child operates on a copy (copy construction) of its parent; after the whole subtree of a node "
              "returned, the parent's printed form and the solution set of its exported constraints/intervals over the value box must be unchanged "
              "(no sharing leak); query_all / normalize / minimize must leave that solution set unchanged; lock step: the same history on the "
@@ -178,7 +179,14 @@ CHECKS["C16"] = {
              "Linear job: every sequence of length 5 (6) over {x:=0, x:=x+1, y:=2, y:=x, assume(x<=0), assume(x>=1), forget(x), join, widening, "
              "r1:=r0, swap} is replayed from scratch IN PLACE on one object per flavour, so that no copy is alive except those the history makes "
              "(the copy-on-write wrapper is then the sole owner of its state); the three flavours must agree after every step (intervals, "
-             "split_dbm, term_int (, split_oct, bool_int))."),
+             "split_dbm, term_int (, split_oct, bool_int)). "
+             "Copy-forms job: pool = every distinct value reached by <=3 (4) operations over {assume(x<=y), assume(y<=1), assume(x<=0), assume(x>=0), "
+             "assume(x+y<=1), assume(y<=0), assume(y>=-1), x:=1, y:=2, forget(y)}; for every ORDERED pair (A,B) of the pool and V in {A, A|B, the fresh "
+             "un-normalised widening result A||B}: each preparation of {copy construction, copy assignment into top / into B / into another fresh widening "
+             "result, normalize, minimize, query_all, copy (constructed / assigned) that is then mutated while the source is used} followed by each later "
+             "operation of {identity, forget(x), forget(y), assume(x<=0), x:=y, join B, meet B, widening with B} must give the same solution set over the "
+             "box as the later operation applied to V itself (widening after a normalisation is not compared: its left operand is syntactic). Quick: 12 "
+             "domains owning lazy/shared representations (all closure settings of the three graph domains); thorough: all domains, pool depth 4."),
     "assumptions": _E3_ASSUME + ["meaning = solution set of exported linear constraints and intervals over the box; widening results are only required to be sound"],
     "level_text": "Complete enumeration of histories within the stated bounds on the real domains and wrappers.",
     "level_note": "Semantic (not structural) comparison; representation differences that do not change the exported meaning are not flagged.",
